@@ -236,6 +236,45 @@ def build():
     P["S:k_skeleton"] = lambda: xgi.k_skeleton(baseS(), 1)
     P["S:cut_to_order"] = lambda: xgi.cut_to_order(baseS(), 1)
 
+    # ---- explicit IDs that are integers by value but not by type (numpy integer scalars, as produced by IDs taken from
+    # an array; integer-valued floats), directly and through every copying / serialising route
+    def npH():
+        H = Hy()
+        H.add_edges_from({np.int64(0): [1, 2], np.int64(1): [2, 3]})
+        return H
+
+    def flH():
+        H = Hy()
+        H.add_edge([1, 2], idx=0.0)
+        H.add_edge([2, 3], idx=1.0)
+        return H
+
+    def npD():
+        D = Di()
+        D.add_edges_from({np.int64(0): ([1], [2]), np.int64(1): ([2, 3], [1])})
+        return D
+
+    def npS():
+        S = SC()
+        S.add_simplices_from({np.int64(0): [1, 2], np.int64(1): [2, 3]})
+        return S
+
+    for tag, mk, cls in (("H", npH, Hy), ("D", npD, Di), ("S", npS, SC)):
+        P[f"{tag}:npids"] = mk
+        P[f"{tag}:npids-copy"] = lambda mk=mk: mk().copy()
+        P[f"{tag}:npids-pickle"] = lambda mk=mk: pickle.loads(pickle.dumps(mk()))
+        P[f"{tag}:npids-ctor"] = lambda mk=mk, cls=cls: cls(mk())
+        P[f"{tag}:npids-cleanup-norelabel"] = lambda mk=mk: mk().cleanup(relabel=False, in_place=False)
+        P[f"{tag}:npids-hif"] = lambda mk=mk: xgi.from_hif_dict(xgi.to_hif_dict(mk()))
+    P["H:floatids-copy"] = lambda: flH().copy()
+    P["H:floatids-pickle"] = lambda: pickle.loads(pickle.dumps(flH()))
+    P["H:floatids-ctor"] = lambda: Hy(flH())
+    P["H:npids-subhypergraph-copy"] = lambda: xgi.subhypergraph(npH(), nodes=[1, 2, 3]).copy()
+    P["H:npids-dual-dual"] = lambda: npH().dual().dual()
+    P["H:from_incidence_matrix-nplabels"] = lambda: xgi.from_incidence_matrix(inc, edgelabels=np.arange(2))
+    P["H:npids-from_hyperedge_dict"] = lambda: xgi.from_hyperedge_dict(xgi.to_hyperedge_dict(npH()))
+    P["H:npids-bipartite-graph"] = lambda: xgi.from_bipartite_graph(xgi.to_bipartite_graph(npH()))
+
     def _h_ante():
         H = Hy()
         H.add_node_to_edge(0, 1)
